@@ -202,7 +202,7 @@ def gen_plan(rng, index, tier):
             steps.append(_mk_step(1, rng.choice(actors)["name"], pt, "abort", kind=rng.choice(list(enginea.ABORT_KINDS))))
         if cfg.get("fuelHandler") and rng.random() < 0.5:
             steps.append({"life": 1, "actor": "fuelHandler", "hook": "BOC", "cycle": rng.randrange(n), "op": "swap", "a": rng.randrange(1000), "b": rng.randrange(1000)})
-    cfg["reader"] = {"loads": rng.randint(1, 3), "hist_objs": rng.randint(1, 4), "pick": rng.randrange(10**6), "split": rng.random() < 0.4}
+    cfg["reader"] = {"loads": rng.randint(1, 3), "hist_objs": rng.randint(1, 4), "pick": rng.randrange(10**6), "split": rng.random() < 0.4, "postLoad": rng.random() < 0.3}
     if rng.random() < 0.1:
         # separately-oracled configuration (DESIGN.md 3.6): the N-th dataset creation after a plan-chosen
         # hook fails with ENOSPC, i.e. the failure is inside the database writer itself
@@ -1072,6 +1072,17 @@ def execute(plan):
             if not (want_plain | {eol}) <= have:
                 raise OracleFailure("C06.complete", f"completed run acknowledged {sorted(have)}; every visited node plus EOL would be {sorted(want_plain | {eol})}", {"what": "nodes", "halted": hc is not None})
             check_file(path, writes0, "life0-completed", True, cs, rd.get("loads", 1), rd.get("pick", 0))
+            if rd.get("postLoad") and any(len(nm) == 6 for nm in writes0):
+                # the run is over; the same process goes on and asks the database interface for a state of
+                # that run (post-processing): the finished file must come through that untouched
+                plain0 = sorted(nm for nm in writes0 if len(nm) == 6)
+                c_, n_ = _group_time(plain0[rd.get("pick", 0) % len(plain0)])
+                try:
+                    o.getInterface("database").loadState(c_, n_)
+                except Exception as e:  # noqa: BLE001 - judged by what is left of the file
+                    log.add("postload-raised", type(e).__name__)
+                probes["state_loaded_through_the_interface_after_the_run"] += 1
+                check_file(path, writes0, "life0-after-post-run-load", True, cs, 1, rd.get("pick", 0))
         elif in_window:
             errname = [nm for nm in writes0 if nm.endswith("error")]
             if not errname:
